@@ -40,6 +40,12 @@ func c15SilenceStdout() {
 	}
 }
 
+// a set-up step of the harness itself failed: the run says nothing about the property
+func c15Fatal(t *testing.T, rep *verifutil.Report, format string, args ...interface{}) {
+	rep.Inconcl("harness set-up failed: "+format, args...)
+	t.Fatalf(format, args...)
+}
+
 type c15Outcome struct {
 	Included bool
 	Success  bool
@@ -54,7 +60,6 @@ type c15Ctx struct {
 	rep  *verifutil.Report
 	gen  *C15Gen
 	K    int
-	erc  map[common.Address]*big.Int // erc20 instance -> Σ balances recorded at deployment
 }
 
 func c15ErrClass(err error) string {
@@ -367,9 +372,6 @@ func (x *c15Ctx) checkSuccess(a *C15Action, kind string, tr *TwinResult, rc *typ
 					bad("pay-amount", "contract balance changed by %v, pay amount %v", d, tx.AmountOrZero())
 				}
 			}
-			if kind == kErc20 {
-				x.erc[addr] = c15ErcSum(s1, addr)
-			}
 		}
 	case types.TerminateContractTx:
 		addr := *tx.To
@@ -555,8 +557,15 @@ func (x *c15Ctx) EvalMulti(m *C15Multi) (safe bool) {
 		return false
 	}
 	var views []interface{}
+	base := strings.SplitN(m.Class, ":", 2)[0]
 	for _, rc := range rcs {
 		views = append(views, c15ReceiptView(rc))
+		oc := "fail"
+		if rc.Success {
+			oc = "ok"
+		}
+		rep.Count(base+"."+c15MethodClass(rc.Method)+":"+oc, 1)
+		rep.Count("multi_receipts:"+oc, 1)
 	}
 	replay["receipts"] = views
 	x.classSeen(m, b, rcs)
@@ -605,6 +614,16 @@ func (x *c15Ctx) classSeen(m *C15Multi, b *types.Block, rcs types.TxReceipts) {
 	x.rep.Distinct("multi", m.Class, n)
 }
 
+func countReceipts(rep *verifutil.Report, kind string, rcs types.TxReceipts) {
+	for _, rc := range rcs {
+		oc := "fail"
+		if rc.Success {
+			oc = "ok"
+		}
+		rep.Count(kind+"."+c15MethodClass(rc.Method)+":"+oc, 1)
+	}
+}
+
 func c15Opts(seed uint64, mode string, sc int) (Options, []string) {
 	o := Options{Seed: seed, NNodes: 1, NIdent: 18 + int(seed%7), NAccounts: 6, AllValidated: true, GodIsIdentity: sc%2 == 1,
 		FirstCeremonyIn: 24 * 600 * time.Hour, StartTime: time.Date(2023, 8, 7+int(seed%5), 6+int(seed%11), 0, 0, 0, time.UTC)}
@@ -634,7 +653,7 @@ func TestVerifC15(t *testing.T) {
 	rep := verifutil.NewReport()
 	defer rep.Write()
 	nScen := verifutil.Scale(1, 3)
-	steps := verifutil.Scale(120, 260)
+	steps := verifutil.Scale(100, 260)
 	if v, err := strconv.Atoi(os.Getenv("C15_STEPS")); err == nil {
 		steps = v
 	}
@@ -655,13 +674,13 @@ func TestVerifC15(t *testing.T) {
 			r.Cfg.IsDebug = true
 		}
 		if err := w.Prologue(); err != nil {
-			t.Fatal(err)
+			c15Fatal(t, rep, "prologue: %v", err)
 		}
 		gen := NewC15Gen(w, twin, verifutil.NewRng(seed, 15), kinds)
 		if err := gen.Fund(Dna(26000)); err != nil {
-			t.Fatal(err)
+			c15Fatal(t, rep, "funding: %v", err)
 		}
-		x := &c15Ctx{w: w, twin: twin, rep: rep, gen: gen, K: K, erc: map[common.Address]*big.Int{}}
+		x := &c15Ctx{w: w, twin: twin, rep: rep, gen: gen, K: K}
 		rep.Count("scenarios:"+mode, 1)
 		rng := verifutil.NewRng(seed, 1515)
 		jumpAt := steps * 6 / 10
@@ -794,26 +813,30 @@ func TestVerifC15SameBlock(t *testing.T) {
 		w := NewWorld(o)
 		twin := w.AddTwin()
 		if err := w.Prologue(); err != nil {
-			t.Fatal(err)
+			c15Fatal(t, rep, "prologue: %v", err)
 		}
 		g := NewC15Gen(w, twin, verifutil.NewRng(seed, 155), kinds)
 		if err := g.Fund(Dna(26000)); err != nil {
-			t.Fatal(err)
+			c15Fatal(t, rep, "funding: %v", err)
 		}
 		g.usedS = map[common.Address]bool{}
+		x := &c15Ctx{w: w, twin: twin, rep: rep, gen: g, K: 4}
 		commit := func(what string, acts ...*C15Action) {
 			for _, a := range acts {
+				if out := x.Eval(a); !out.Included || !out.Success {
+					c15Fatal(t, rep, "%s: twin evaluation of set-up tx failed: %s -> %+v", what, a.Describe(), out)
+				}
 				if err := w.Submit(a.Tx); err != nil {
-					t.Fatalf("%s: pool refused %s: %v", what, a.Describe(), err)
+					c15Fatal(t, rep, "%s: pool refused %s: %v", what, a.Describe(), err)
 				}
 			}
 			w.Tick(20 * time.Second)
 			if res := w.NextBlock(0); len(res.Errs) > 0 {
-				t.Fatalf("%s: block refused: %v", what, res.Errs)
+				c15Fatal(t, rep, "%s: block refused: %v", what, res.Errs)
 			}
 			for _, a := range acts {
 				if rc := w.View().Chain.GetReceipt(a.Tx.Hash()); rc == nil || !rc.Success {
-					t.Fatalf("%s: set-up tx failed: %s -> %+v", what, a.Describe(), rc)
+					c15Fatal(t, rep, "%s: set-up tx failed: %s -> %+v", what, a.Describe(), rc)
 				}
 			}
 		}
@@ -840,6 +863,21 @@ func TestVerifC15SameBlock(t *testing.T) {
 		for g.nextHeight()-c15U64(g.cval(c.Addr, "startBlock")) < 2 {
 			commit("wait")
 		}
+		// the same transactions in one block of the real multi-replica chain
+		inChain := func(class string, acts []*C15Action) bool {
+			for _, a := range acts {
+				w.Submit(a.Tx)
+			}
+			w.Tick(20 * time.Second)
+			res := w.NextBlock(0)
+			for n, e := range res.Errs {
+				rep.Violation("nondeterministic:"+class, fmt.Sprintf("real chain: block %d carrying the designated class is refused by %s: %v", res.Block.Height(), n, e), DescribeBlock(res.Block))
+			}
+			if len(res.Errs) == 0 {
+				rep.Count("multi_in_real_chain:"+class, 1)
+			}
+			return len(res.Errs) == 0
+		}
 		// the designated block
 		var txs []*C15Action
 		var fin *Actor
@@ -856,7 +894,7 @@ func TestVerifC15SameBlock(t *testing.T) {
 		twin.enter()
 		for _, a := range txs {
 			if err := twin.TxPool.AddExternalTxs(validation.InboundTx, a.Tx); err != nil {
-				t.Fatalf("observer pool refused %s: %v", a.Describe(), err)
+				c15Fatal(t, rep, "observer pool refused %s: %v", a.Describe(), err)
 			}
 		}
 		b := twin.Chain.ProposeBlock(nil).Block
@@ -864,7 +902,7 @@ func TestVerifC15SameBlock(t *testing.T) {
 			twin.TxPool.Remove(old)
 		}
 		if len(b.Body.Transactions) != len(txs) || b.Body.Transactions[len(txs)-1].Hash() != fa.Tx.Hash() {
-			t.Fatalf("designated block not built as planned: %v", DescribeBlock(b))
+			c15Fatal(t, rep, "designated block not built as planned: %v", DescribeBlock(b))
 		}
 		orders := map[string]int{}
 		refused := map[string]int{}
@@ -884,6 +922,9 @@ func TestVerifC15SameBlock(t *testing.T) {
 			if i == 0 && last.Success {
 				rep.Count("sameblock_class_seen:"+class, 1)
 				rep.Distinct("scripted", class)
+			}
+			if i == 0 {
+				countReceipts(rep, kind, rcs)
 			}
 			var o []string
 			for _, e := range last.Events {
@@ -916,6 +957,220 @@ func TestVerifC15SameBlock(t *testing.T) {
 			rep.Violation("nondeterministic:"+class, fmt.Sprintf("one block (5 sendVote + the finishVoting that pays them) built by ProposeBlock, executed %d times on fresh check states of the same head: refused %v; accepted executions by order of the reward events: %v; %d plain executions of its tx list gave %d different orders of the reward events",
 				N, refused, orders, N, len(raw)), map[string]interface{}{"txs": desc, "block": DescribeBlock(b), "orders": orders, "refused": refused, "reward_orders": raw})
 		}
+		// ---- second designated class: deposits and the refund that pays them in one block
+		{
+			rkind := c15Versioned(kROL, w.Cons.EnableUpgrade10)
+			rclass := rkind + ":deposit+refund"
+			rc := &C15Contract{Kind: kROL, Owner: owner}
+			feeArg := u64b(1000)
+			if !w.Cons.EnableUpgrade10 {
+				feeArg = []byte{1}
+			}
+			ghost := c15Addr(g.R) // a voting that does not exist: push unlocks the refund path
+			commit("rol deploy", g.build(&cand{txKind: "Deploy", kind: kROL, c: rc, from: owner, method: "deploy", shape: "valid", noMut: true,
+				amount: new(big.Int).Add(g.minStake(), big.NewInt(5)),
+				args: [][]byte{ghost.Bytes(), {1}, nil, nil, u64b(0), u64b(uint64(w.Now().Unix() + 100000)), feeArg}}))
+			commit("rol first deposit", g.build(&cand{txKind: "Call", kind: kROL, c: rc, from: w.Accounts[1], method: "deposit", amount: Dna(300), shape: "valid", noMut: true}))
+			commit("rol push", g.build(&cand{txKind: "Call", kind: kROL, c: rc, from: owner, method: "push", amount: big.NewInt(0), shape: "valid", noMut: true}))
+			var rtxs []*C15Action
+			var last *Actor
+			var lastNonce uint32
+			for i, d := range []*Actor{w.Accounts[2], w.Accounts[3], w.Idents[6], w.Idents[7]} {
+				rtxs = append(rtxs, g.build(&cand{txKind: "Call", kind: kROL, c: rc, from: d, method: "deposit", amount: Dna(int64(7 + 300*i)), shape: "valid", noMut: true}))
+				if n := w.NextNonce(d); last == nil || n > lastNonce {
+					last, lastNonce = d, n
+				}
+			}
+			ra := g.build(&cand{txKind: "Call", kind: kROL, c: rc, from: last, method: "refund", amount: big.NewInt(0), shape: "valid", noMut: true})
+			ra.Tx = SignedTx(last, ra.Tx.Type, ra.Tx.To, ra.Tx.Amount, ra.Tx.MaxFee, nil, lastNonce+1, ra.Tx.Epoch, ra.Tx.Payload)
+			rtxs = append(rtxs, ra)
+			twin.enter()
+			for _, a := range rtxs {
+				if err := twin.TxPool.AddExternalTxs(validation.InboundTx, a.Tx); err != nil {
+					c15Fatal(t, rep, "observer pool refused %s: %v", a.Describe(), err)
+				}
+			}
+			rb := twin.Chain.ProposeBlock(nil).Block
+			for _, old := range twin.TxPool.VerifAll() {
+				twin.TxPool.Remove(old)
+			}
+			if len(rb.Body.Transactions) != len(rtxs) || rb.Body.Transactions[len(rtxs)-1].Hash() != ra.Tx.Hash() {
+				c15Fatal(t, rep, "designated block not built as planned: %v", DescribeBlock(rb))
+			}
+			results := map[string]int{}
+			var rdesc []string
+			for _, a := range rtxs {
+				rdesc = append(rdesc, a.Describe())
+			}
+			for i := 0; i < N; i++ {
+				_, _, err := twin.Chain.VerifValidateOnCheck(rb)
+				rep.Eval(1)
+				rep.Count("reexecutions", 1)
+				if err != nil {
+					results["refused: "+ErrClass(err)]++
+				}
+				rcs, err := twin.Chain.VerifProcessTxsOnCheck(rb)
+				if err != nil || len(rcs) != len(rtxs) {
+					results[fmt.Sprintf("error %v", err)]++
+					continue
+				}
+				lastRc := rcs[len(rcs)-1]
+				if i == 0 && lastRc.Success {
+					rep.Count("sameblock_class_seen:"+rclass, 1)
+					rep.Distinct("scripted", rclass)
+				}
+				if i == 0 {
+					countReceipts(rep, rkind, rcs)
+				}
+				var o []string
+				for _, e := range lastRc.Events {
+					if len(e.Data) > 0 {
+						o = append(o, fmt.Sprintf("%x", trunc(e.Data[0], 3)))
+					}
+				}
+				results[fmt.Sprintf("refund success=%v gasUsed=%d refunds=%s", lastRc.Success, lastRc.GasUsed, strings.Join(o, ">"))]++
+			}
+			rep.Sample(map[string]interface{}{"class": rclass, "txs": rdesc, "executions": N, "results": results})
+			if len(results) > 1 {
+				rep.Violation("nondeterministic:"+rclass, fmt.Sprintf("one block (4 deposit + the refund that pays them) built by ProposeBlock, executed %d times on fresh check states of the same head: %v", N, results),
+					map[string]interface{}{"txs": rdesc, "block": DescribeBlock(rb), "results": results})
+			}
+			// both classes were evaluated on the observer; now they enter the real chain
+			if inChain(class, txs) {
+				inChain(rclass, rtxs)
+			}
+		}
 		w.Cleanup()
 	}
+}
+
+// TestVerifC15LongTermination (thorough tier): terminating a STARTED oracle voting is only
+// possible votingDuration + publicVotingDuration + days*4320 blocks after its start (days = 7
+// for the minimal stake), so the chain is advanced by > 30 000 empty blocks. Two votings are
+// then terminated: one that was finished (keeps fact/result/hash) and one that never was
+// (pays every voter, revealed or not, and burns the rest) — the latter also with a sweep of
+// gas budgets that end inside the payout loop.
+func TestVerifC15LongTermination(t *testing.T) {
+	if !verifutil.Enabled() {
+		t.Skip("verif harness")
+	}
+	c15SilenceStdout()
+	rep := verifutil.NewReport()
+	defer rep.Write()
+	modes := []string{"v12", "v9"}
+	mode := modes[verifutil.Shard()%len(modes)]
+	seed := scenSeed(0) + 15900
+	o, kinds := c15Opts(seed, mode, 0)
+	w := NewWorld(o)
+	twin := w.AddTwin()
+	if err := w.Prologue(); err != nil {
+		c15Fatal(t, rep, "prologue: %v", err)
+	}
+	g := NewC15Gen(w, twin, verifutil.NewRng(seed, 159), kinds)
+	if err := g.Fund(Dna(26000)); err != nil {
+		c15Fatal(t, rep, "funding: %v", err)
+	}
+	g.usedS = map[common.Address]bool{}
+	x := &c15Ctx{w: w, twin: twin, rep: rep, gen: g, K: 4}
+	commit := func(what string, acts ...*C15Action) {
+		for _, a := range acts {
+			if out := x.Eval(a); !out.Included || !out.Success {
+				c15Fatal(t, rep, "%s: twin evaluation of set-up tx failed: %s -> %+v", what, a.Describe(), out)
+			}
+			if err := w.Submit(a.Tx); err != nil {
+				c15Fatal(t, rep, "%s: pool refused %s: %v", what, a.Describe(), err)
+			}
+		}
+		w.Tick(20 * time.Second)
+		if res := w.NextBlock(0); len(res.Errs) > 0 {
+			c15Fatal(t, rep, "%s: block refused: %v", what, res.Errs)
+		}
+	}
+	call := func(c *C15Contract, from *Actor, method string, amount *big.Int, args ...[]byte) *C15Action {
+		return g.build(&cand{txKind: "Call", kind: kOV, c: c, from: from, method: method, amount: amount, args: args, shape: "valid", noMut: true})
+	}
+	ns := uint64(w.View().AppState.ValidatorsCache.NetworkSize())
+	owner := w.Accounts[0]
+	var vs [2]*C15Contract
+	for i := range vs {
+		c := &C15Contract{Kind: kOV, Owner: owner}
+		vs[i] = c
+		commit("deploy", g.build(&cand{txKind: "Deploy", kind: kOV, c: c, from: owner, method: "deploy", shape: "valid", noMut: true,
+			amount: new(big.Int).Add(g.minStake(), big.NewInt(5)),
+			args: [][]byte{[]byte("fact"), u64b(uint64(w.Now().Unix() - 10)), u64b(6), u64b(100), {51}, {1}, u64b(ns), Dna(1).Bytes(), {10}}}))
+		dep := new(big.Int).Add(new(big.Int).SetBytes(g.cval(c.Addr, "ownerDeposit")), Dna(50))
+		commit("start", call(c, owner, "startVoting", dep))
+	}
+	voters := w.Idents[:6]
+	salt := func(v *Actor) []byte { return []byte{v.Addr[0], 9} }
+	for _, c := range vs {
+		var l []*C15Action
+		for _, v := range voters {
+			h := crypto.Hash(append(common.ToBytes(byte(1)), salt(v)...))
+			l = append(l, call(c, v, "sendVoteProof", Dna(1), h[:]))
+		}
+		commit("proofs", l...)
+	}
+	for g.nextHeight()-c15U64(g.cval(vs[1].Addr, "startBlock")) < 6 {
+		commit("wait")
+	}
+	// voting 0: everybody reveals, then it is finished; voting 1: four of six reveal, never finished
+	for i, c := range vs {
+		var l []*C15Action
+		for j, v := range voters {
+			if i == 1 && j >= 4 {
+				continue
+			}
+			l = append(l, call(c, v, "sendVote", nil, []byte{1}, salt(v)))
+		}
+		commit("reveals", l...)
+	}
+	commit("finish", call(vs[0], owner, "finishVoting", nil))
+	// a premature termination must fail without a trace
+	early := g.build(&cand{txKind: "Terminate", kind: kOV, c: vs[1], from: owner, method: "terminate", amount: big.NewInt(0), shape: "valid", noMut: true})
+	if out := x.Eval(early); out.Success {
+		c15Fatal(t, rep, "premature termination succeeded")
+	}
+	// > 30 000 empty blocks
+	need := c15U64(g.cval(vs[1].Addr, "startBlock")) + 6 + 100 + 7*4320 + 3
+	t0 := time.Now()
+	for w.View().Head().Height()+1 < need {
+		w.Tick(20 * time.Second)
+		if res := w.NextBlock(100); len(res.Errs) > 0 {
+			c15Fatal(t, rep, "empty block refused: %v", res.Errs)
+		}
+	}
+	rep.Count("empty_blocks_waited", int(need))
+	rep.SetInfo("long_wait_seconds", int(time.Since(t0).Seconds()))
+	kind := c15Versioned(kOV, w.Cons.EnableUpgrade10)
+	for i, c := range vs {
+		term := g.build(&cand{txKind: "Terminate", kind: kOV, c: c, from: w.Accounts[1+i], method: "terminate", amount: big.NewInt(0), shape: "valid", noMut: true})
+		out := x.Eval(term)
+		if !out.Included || !out.Success {
+			rep.Inconcl("late termination of voting %d did not succeed: %+v", i, out)
+			continue
+		}
+		rep.Count("late_termination_ok:"+kind, 1)
+		// every gas budget that ends inside the termination (payout loop, removal of the store)
+		stepG := int64(out.GasUsed)/int64(verifutil.Scale(40, 160)) + 1
+		for gas := int64(0); gas < int64(out.GasUsed); gas += stepG {
+			if so := x.Eval(g.WithGas(term, gas)); so.Included {
+				rep.Count("gas_sweeps", 1)
+			}
+		}
+		if err := w.Submit(term.Tx); err != nil {
+			c15Fatal(t, rep, "pool refused %s: %v", term.Describe(), err)
+		}
+		w.Tick(20 * time.Second)
+		if res := w.NextBlock(0); len(res.Errs) > 0 {
+			for n, e := range res.Errs {
+				rep.Violation("chain-block-refused:"+ErrClass(e), fmt.Sprintf("block with the late termination refused by %s: %v", n, e), DescribeBlock(res.Block))
+			}
+			break
+		}
+		if g.st().GetCodeHash(c.Addr) != nil {
+			rep.Violation("success-not-applied:"+kind+":terminate:still-there", "terminated voting still exists in the canonical chain", term.Describe())
+		}
+	}
+	w.Cleanup()
 }
